@@ -209,9 +209,9 @@ func (t *DateTime) AddTimeSpan(val TimeSpan) *DateTime {
 }
 
 func daysOfMonth(year, month int) int {
-	d := MakeDateTime(year, month+1, 1, 0, 0, 0, 0, 0, 0, nil)
-	lastDay := d.SubtractTimeSpan(Day)
-	return lastDay.Day()
+	// day 0 of the next month is the last day of this month; computed in UTC because
+	// "first of next month minus 24 hours" lands on the wrong day when the local zone changes to DST in between
+	return time.Date(year, time.Month(month+1), 0, 0, 0, 0, 0, time.UTC).Day()
 }
 
 func (t *DateTime) AddDateSpan(val DateSpan) *DateTime {
